@@ -244,6 +244,32 @@ fn series(rng: &mut Rng) {
         2 => next_down(*rng.pick(&xs)).max(lo),
         _ => lo + span * rng.unit(),
     };
+    // "interpolation returns stored values at knots" — whatever the neighbouring ordinates are: a NaN gap
+    // sample next to the knot, or a step so steep that its slope overflows
+    if rng.chance(0.35) {
+        let mut yb = ys.clone();
+        let k = rng.below(n);
+        yb[k] = match rng.below(3) {
+            0 => f64::NAN,
+            1 => 1.0e308,
+            _ => -1.0e308,
+        };
+        if let Some(j) = (k + 1 < n).then_some(k + 1) {
+            if rng.chance(0.3) {
+                yb[j] = if yb[k].is_nan() { f64::NAN } else { -yb[k] };
+            }
+        }
+        if let Ok(sb) = Series1::try_new(xs.clone(), yb.clone()) {
+            let mut v = Verdict::new();
+            for i in 0..n {
+                if yb[i].is_finite() {
+                    let got = sb.interpolate(xs[i]);
+                    v.require(got == yb[i], "interpolate.stored_value_at_every_knot", || format!("knot {i} of xs {xs:?} ys {yb:?}: stored {} returned {got}", yb[i]));
+                }
+            }
+            emit_oracle_only("series.interp", &Tok::new(), &Tok::new(), &v);
+        }
+    }
     // interpolation
     for _ in 0..4 {
         let x = match rng.below(6) {
